@@ -10,6 +10,11 @@
 static int g_chunks = 1;   // answered to the library's omp_get_num_procs / omp_get_max_threads (chunks run sequentially)
 extern "C" int omp_get_num_procs(void) noexcept { return g_chunks; }
 extern "C" int omp_get_max_threads(void) noexcept { return g_chunks; }
+extern "C" int omp_get_thread_num(void) noexcept { return 0; }      // pragmas are ignored in this build: every parallel region runs as a team of one
+extern "C" int omp_get_num_threads(void) noexcept { return 1; }
+extern "C" int omp_in_parallel(void) noexcept { return 0; }
+extern "C" void omp_set_num_threads(int) noexcept {}
+extern "C" int omp_get_thread_limit(void) noexcept { return 1; }
 
 #ifdef VERIF_ASAN
 extern "C" void __asan_on_error() {
